@@ -1,5 +1,6 @@
 import RsslVerif.Thm.C15
 import RsslVerif.Lemmas.GenSemLit
+import RsslVerif.Gen.UsageTables
 /-!
 # C01 ∘ C15: where the hypothesis `Agree` of `gen_sem_*` comes from
 
@@ -210,5 +211,135 @@ example : (assignLocals ["pass", "pass_1", "pass"] ["pass"] ["pass", "pass_1", "
 
 example : ¬ Harmless ("pass_1", "pass_1") ("pass", "pass_1") := by
   simp [Harmless]
+
+/-! ## the local pass rests on the usage analysis (seeded mutant C01-5)
+
+`used_names_all_scopes` receives the names of the functions / global variables that `GlobalUsageAnalysis` reports as used by
+some body (`Input.used`).  `Thm.C15.locals_apart_from_used` is the positive half: a local never takes the name of a symbol
+**in** that set.  The lemmas below are the converse: a name **outside** the set (and outside the reserved list and the
+generated candidates) is *kept* by every local that carries it — so if the analysis omits a symbol that a body does mention
+(seed C01-5: a global referenced only inside an array index), a local of that name is printed with the global's name and
+`Agree` has no solution: the emitted text reads the local where the IR reads the global.  Hence the `Agree` premise of
+`gen_sem_*` needs usage *completeness*: C02's obligations about `gather_usage_*` (`Gen.UsageTables`,
+`Thm.C02.all_positions_descended`, `tables_as_modelled`, `mentions_calculateLocal`, …) are C01 obligations too. -/
+
+/-- a source name outside `used_names_all_scopes` is kept by every local that carries it (candidates are outside the
+source names of the locals, so no earlier renaming can put it into the set) -/
+theorem assignLocals_keeps_unreserved {al : List String} {g : String} (hg : g ∈ al) :
+    ∀ (ls : List String) {ua out : List String}, g ∉ ua → assignLocals al ua ls = .ok out →
+      ∀ i : Nat, ls[i]? = some g → out[i]? = some g := by
+  intro ls
+  induction ls with
+  | nil => intro ua out _ _ i hi; simp at hi
+  | cons n r ih =>
+    intro ua out hua h i hi
+    unfold assignLocals at h
+    split at h
+    · rename_i hn
+      split at h
+      · cases h
+      · rename_i c hc
+        split at h
+        · cases h
+        · rename_i rest hrest
+          cases h
+          cases i with
+          | zero =>
+            simp at hi
+            subst hi
+            exact absurd (by simpa using hn) hua
+          | succ j =>
+            have hcal := (firstFreeLocal_not_mem _ _ hc).2
+            have hne : g ≠ c := fun e => hcal (e ▸ hg)
+            have : g ∉ c :: ua := by simp [hne, hua]
+            simpa using ih this hrest j (by simpa using hi)
+    · split at h
+      · cases h
+      · rename_i rest hrest
+        cases h
+        cases i with
+        | zero => simpa using hi
+        | succ j => simpa using ih hua hrest j (by simpa using hi)
+
+/-- **unreserved_used_name_can_be_captured** (full, for C15's model of `NameMap::build`, every module, reserved list and
+usage set): let `g` be a file-scope entry of the result whose name is not reserved, not a generated candidate, and **not the
+name of any symbol the usage analysis reports** (`hom`: the used set omits `g` and whatever shares its name — what happens
+when `gather_usage_*` skips the position where a body mentions `g`).  Then every local variable whose source name is
+`g.name` is printed as `g.name` as well, and for every name context that prints an entity `x` as `g.name` and a different
+entity `y` as that local's name, `Agree` is unsatisfiable: some use in the emitted text no longer refers to its entity
+(the local captures the reference).  Together with `Thm.C15.locals_apart_from_used` (a *reported* symbol's name is never
+taken by a local) this makes "the usage set contains every symbol a body mentions" exactly the premise under which the local
+pass protects references. -/
+theorem unreserved_used_name_can_be_captured {reserved : List String} {inp : Input} {names : List Named}
+    (h : build reserved inp = .ok names) :
+    ∃ (globals : List Named) (gens ls : List String), names = globals ++ numberLocals ls 0 ∧
+      ∀ g ∈ globals, g.name ∉ reserved → g.name ∉ gens →
+        (∀ e ∈ globals, (e.sym.kind = .func ∨ e.sym.kind = .global) → e.sym ∈ inp.used → e.name ≠ g.name) →
+        ∀ i : Nat, inp.locals[i]? = some g.name →
+          ls[i]? = some g.name ∧
+          ∀ (cx : Ctx) (x y : Var), x ≠ y → cx.name x = g.name → some (cx.name y) = ls[i]? →
+            ¬ ∃ env : Ast.Env, Agree cx env := by
+  obtain ⟨scopes, ls, _, hl, rfl⟩ := RsslVerif.Thm.C15.build_ok h
+  refine ⟨_, scopes.flatMap (fun p => p.2.gen), ls, rfl, ?_⟩
+  intro g _ hres hgen hom i hi
+  have hal : g.name ∈ inp.locals := List.mem_of_getElem? hi
+  have hun : g.name ∉ usedNames inp (scopes.flatMap fun p => p.2.out.map fun q => (⟨q.1, p.1, q.2⟩ : Named)) := by
+    unfold usedNames
+    intro hm
+    obtain ⟨e, he, hf⟩ := List.mem_filterMap.mp hm
+    split at hf
+    · rename_i hc
+      simp only [Bool.and_eq_true, Bool.or_eq_true, beq_iff_eq, List.contains_iff_mem] at hc
+      exact hom e he hc.1 hc.2 (Option.some.inj hf)
+    · cases hf
+  have hua : g.name ∉ reserved ++ scopes.flatMap (fun p => p.2.gen) ++
+      usedNames inp (scopes.flatMap fun p => p.2.out.map fun q => (⟨q.1, p.1, q.2⟩ : Named)) := by
+    simp only [List.mem_append, not_or]
+    exact ⟨⟨hres, hgen⟩, hun⟩
+  have hk := assignLocals_keeps_unreserved hal inp.locals hua hl i hi
+  refine ⟨hk, ?_⟩
+  intro cx x y hxy hx hy
+  rw [hk] at hy
+  exact agree_unsatisfiable_of_shared_name hxy (hx.trans (Option.some.inj hy).symm)
+
+/-- non-vacuity and the seeded scenario on the model (`static uint slot; int pick(int v[4]) { int slot = v[slot]; … }`):
+with the global reported used the local is printed `slot_0`; with the usage set empty (the analysis skipped the array index)
+the local keeps `slot`, the name of the global. -/
+example :
+    let inp : List Sym → Input := fun u =>
+      ⟨[], [⟨⟨.global, 0⟩, none, "slot"⟩, ⟨⟨.func, 0⟩, none, "pick"⟩], u, ["v", "slot"]⟩
+    (build [] (inp [⟨.global, 0⟩])).toOption.map (·.map (·.name)) = some ["pick", "slot", "v", "slot_0"] ∧
+    (build [] (inp [])).toOption.map (·.map (·.name)) = some ["pick", "slot", "v", "slot"] := by
+  decide +kernel
+
+
+/-- **usage_analysis_descends_everywhere** (fact about the *current* source, re-extracted by C02's translator into
+`Gen.UsageTables` on every run): `gather_usage_for_statement / _expression / _init` and the `ForInit` match have exactly one
+arm per variant of the IR enums and pass **every** statement-, expression- and initialiser-valued field on (the `false`
+entries are the fields that hold no expression: constants, ids, types, swizzle letters, member names, the call's id and
+template arguments, a case label's constant); `Global` and `Call` record their symbol; function bodies, default arguments and
+global initialisers are gathered and every function has an entry.  This is the completeness premise of
+`unreserved_used_name_can_be_captured` for every syntactic position: seeded mutant C01-5 turns
+`("ArraySubscript", [true, true])` into `[true, false]`. -/
+theorem usage_analysis_descends_everywhere :
+    Gen.UsageTables.stmtArms = [
+      ("Expression", [true]), ("Var", [true]), ("Block", [true]), ("If", [true, true]), ("IfElse", [true, true, true]),
+      ("For", [true, true, true, true]), ("While", [true, true]), ("DoWhile", [true, true]), ("Switch", [true, true]),
+      ("Break", []), ("Continue", []), ("Discard", []), ("Return", [true]), ("CaseLabel", [false]), ("DefaultLabel", [])] ∧
+    Gen.UsageTables.exprArms = [
+      ("Literal", [false]), ("Variable", [false]), ("MemberVariable", [false, false]), ("Global", [false]),
+      ("ConstantVariable", [false]), ("EnumValue", [false]), ("TernaryConditional", [true, true, true]),
+      ("Sequence", [true]), ("Swizzle", [true, false]), ("MatrixSwizzle", [true, false]),
+      ("ArraySubscript", [true, true]), ("StructMember", [true, false, false]), ("ObjectMember", [true, false]),
+      ("Call", [true, false, true]), ("Constructor", [false, true]), ("Cast", [false, true]), ("SizeOf", [false]),
+      ("IntrinsicOp", [false, true])] ∧
+    Gen.UsageTables.initArms = [("Expression", [true]), ("Aggregate", [true])] ∧
+    Gen.UsageTables.forInitArms = [("Empty", []), ("Expression", [true]), ("Definitions", [true])] ∧
+    Gen.UsageTables.symbolInserts =
+      [("Global", "GlobalVariable"), ("ConstantVariable", "ConstantBuffer"), ("Call", "Function")] ∧
+    Gen.UsageTables.functionBodyGathered = true ∧ Gen.UsageTables.defaultArgumentsGathered = true ∧
+    Gen.UsageTables.globalInitialisersGathered = true ∧ Gen.UsageTables.everyFunctionHasAnEntry = true ∧
+    Gen.UsageTables.recurseShape = ⟨true, true, true, true, true⟩ := by
+  decide
 
 end RsslVerif.Thm.C01Names
